@@ -801,14 +801,15 @@ func (w *world) followOn(cmd string, disp *Step, probe bool) {
 	if err == nil {
 		err = m.FinishMessage(w.ctx)
 	}
-	w.ev(Event{E: "FollowOn", Cmd: cmd, Kind: lc.kind})
 	if err != nil {
-		// the server has hung up: nothing can answer
+		// the connection is gone (the server hung up, or this client gave up on its
+		// handshake): the command never left, so nothing happened and no event is recorded
 		if !lc.refused && !lc.returned {
 			w.res.Broken = append(w.res.Broken, fmt.Sprintf("cannot send follow-on command on a live connection: %v", err))
 		}
 		return
 	}
+	w.ev(Event{E: "FollowOn", Cmd: cmd, Kind: lc.kind})
 	if lc.refused && lc.returned && lc.srv.IsClosed() {
 		// written into a connection the server has closed; give a handler the chance to show up anyway
 		select {
@@ -817,6 +818,7 @@ func (w *world) followOn(cmd string, disp *Step, probe bool) {
 			w.ev(Event{E: "Handler", Cmd: cmdName[o.cmd], Reg: o.reg, EncReal: o.isEnc, AuthFlag: o.authFlag,
 				EncFlag: o.encFlag, SrvUser: o.user, Resumed: o.resumed, Kind: lc.kind, SessKind: lc.sessKind})
 		case <-time.After(5 * time.Millisecond):
+			w.ev(Event{E: "Closed", Cmd: cmd, Kind: lc.kind})
 		}
 		return
 	}
